@@ -291,6 +291,33 @@ class CFG:
     def can_reach(self, a, b, skip_nodes=(), skip_edges=()):
         return b.id in self.reach_from(a, skip_nodes, skip_edges)
 
+    def reaching_assignments(self, node, name):
+        """Assignment statements to `name` that may reach `node` (no other assignment to `name` in
+        between).  Loop targets and with-as bindings count as assignments."""
+        def assigns(n):
+            a = n.ast
+            if n.kind == 'iter':
+                return any(isinstance(x, ast.Name) and x.id == name for x in ast.walk(a.target))
+            if n.kind != 'stmt':
+                return False
+            tgts = []
+            if isinstance(a, ast.Assign):
+                tgts = a.targets
+            elif isinstance(a, (ast.AugAssign, ast.AnnAssign)):
+                tgts = [a.target]
+            elif isinstance(a, (ast.With, ast.AsyncWith)):
+                tgts = [i.optional_vars for i in a.items if i.optional_vars is not None]
+            return any(isinstance(x, ast.Name) and x.id == name for t in tgts for x in ast.walk(t))
+        defs = [n for n in self.nodes if assigns(n)]
+        res = []
+        for d in defs:
+            others = [o for o in defs if o is not d and o is not node]
+            starts = [b for (b, _l) in d.succ]
+            reach = self.reach_from(starts, skip_nodes=others) if starts else set()
+            if node.id in reach:
+                res.append(d)
+        return res
+
     def nodes_of_kind(self, *kinds):
         return [n for n in self.nodes if n.kind in kinds]
 
